@@ -259,6 +259,7 @@ def transformers(repo):
 
 def run(ctx):
     repo = ctx.repo
+    _merge_conflict_relation(ctx, repo)
     shared.control_index_monotone_rule(ctx, 'C06.q', ['cirq-core/cirq/transformers/', 'cirq-core/cirq/circuits/'], floor=2)
     ctx.decided.append('C06.q placement bookkeeping keeps, per control key, the latest moment that reads it (running maximum)')
     shared.qudit_blind_dispatch_rule(ctx, 'C06.p', ['cirq-core/cirq/transformers/', 'cirq-google/cirq_google/transformers/'], floor=4)
@@ -988,3 +989,29 @@ def _memo_key_rule(ctx, repo):
                    '(e.g. the qubits of an operation) share one cached answer', m.rel, s.lineno)
     if n == 0:
         raise AnalysisError('C06.o: no memo table found in the transformer packages')
+
+
+def _merge_conflict_relation(ctx, repo, rid='C06.r'):
+    """The merge primitive blocks on the same conflicts as circuit placement: qubits, measurement-vs-control keys both ways, and measurement-vs-measurement of one key."""
+    ci = repo.cls('cirq.transformers.transformer_primitives._MergedCircuit')
+    fn = ci.methods.get('get_mergeable_components')
+    ctx.decided.append(f'{rid} _MergedCircuit.get_mergeable_components consults, for a new component, the last moment of its qubits, of measurements of its control keys, of controls on its '
+                       'measurement keys and of measurements of its measurement keys')
+    ctx.rule(rid, 'one conflict relation in the merge primitive: the moment a component may merge into is bounded by the index tables for (qubits <- its qubits), (measurements <- its control '
+             'keys), (controls <- its measurement keys) and (measurements <- its measurement keys) - without the last pair two measurements of one key on different qubits change '
+             'places when one of them merges backwards (the records of the key swap)', floor=4, style='COH')
+    if fn is None:
+        raise AnalysisError('_MergedCircuit.get_mergeable_components vanished')
+    got = set()
+    for g in ast.walk(fn):
+        if isinstance(g, (ast.GeneratorExp, ast.ListComp)) and len(g.generators) == 1:
+            elt, gen = g.elt, g.generators[0]
+            tab = next((x.attr for x in ast.walk(elt) if isinstance(x, ast.Attribute) and x.attr.endswith('_indexes')), None)
+            src = ast.unparse(gen.iter).split('.')[-1]
+            if tab:
+                got.add((tab, src))
+    want = {('qubit_indexes', None), ('mkey_indexes', 'ckeys'), ('ckey_indexes', 'mkeys'), ('mkey_indexes', 'mkeys')}
+    for tab, src in sorted(want, key=str):
+        ok = any(t == tab and (src is None or s_ == src) for t, s_ in got)
+        ctx.ob(rid, f'{ci.qual}.get_mergeable_components:{tab}<-{src or "qubits"}', ok, '' if ok else
+               f'the bound on the merge moment never consults {tab} for the component\'s {src or "qubits"} (consulted: {sorted(got)})', ci.mod.rel, fn.lineno)
